@@ -552,9 +552,11 @@ pub fn drive(log: &mut Log) {
         (16, 16, 15), (16, 16, 16), (32, 16, 17), (32, 32, 32), (64, 32, 33),
         (64, 64, 63), (64, 64, 64), (0, 64, 65), (0, 64, 100), (64, 8, 5), (8, 16, 3),
     ];
-    let nvar = log.opts.n(2, 12);
+    let nvar = log.opts.n(2, 8);
     let hq = if log.opts.thorough() { 1 } else { 2 }; // quick tier: fewer hits per search
+    let mut combo: u64 = 0;
     for &(ws, wl, m) in &plan {
+        combo += 1;
         for variant in 0..nvar {
             case += 1;
             if !log.mine(case) {
@@ -564,7 +566,7 @@ pub fn drive(log: &mut Log) {
                 continue;
             }
             let mut rng = Rng::new(seed, 41, case);
-            let kind = (variant + case) % 4;
+            let kind = (variant + combo) % 4;
             let (alpha, talpha): (Vec<u8>, Vec<u8>) = match kind {
                 0 => (b"ACGT".to_vec(), b"ACGT".to_vec()),
                 1 => (b"ab".to_vec(), b"ab".to_vec()),
